@@ -423,18 +423,24 @@ fn next_prefix(prefix: &str) -> Option<String> {
         return None;
     }
 
-    let mut bytes = prefix.as_bytes().to_vec();
-
-    // Find the last byte that can be incremented
-    while let Some(last) = bytes.pop() {
-        if last < 0xff {
-            bytes.push(last + 1);
-            return String::from_utf8(bytes).ok();
+    // Increment the last character to the next Unicode scalar value (UTF-8 byte order is
+    // scalar-value order). Incrementing the last BYTE instead can leave invalid UTF-8
+    // ("\u{bf}" = C2 BF -> C2 C0), and treating that as "no upper bound" made the scan run
+    // to the end of the shard and return keys that do not start with the prefix.
+    let mut chars: Vec<char> = prefix.chars().collect();
+    while let Some(last) = chars.pop() {
+        let next = match last as u32 {
+            0xD7FF => Some('\u{E000}'), // skip the surrogate gap
+            c => char::from_u32(c + 1),  // None only after char::MAX
+        };
+        if let Some(next) = next {
+            chars.push(next);
+            return Some(chars.into_iter().collect());
         }
-        // Last byte was 0xFF, continue to previous byte
+        // Last character was char::MAX, continue with the previous one
     }
 
-    // All bytes were 0xFF, no upper bound
+    // Every character was char::MAX: no upper bound
     None
 }
 
